@@ -44,6 +44,18 @@ def run(ctx):
     ctx.alias = {'R2': 'R9'}
     _c03.r2_components(ctx, g, _c03.listener_handlers(ctx))
     ctx.alias = {}
+    # the normal form may not depend on where a signifier stands: a line reader that interprets quotes removes a leading `"` (the
+    # pizzicato mark) but keeps a trailing one (C02.R1 as R10) ...
+    from . import c02 as _c02
+    ctx.alias = {'R1': 'R10'}
+    _c02.r1_reader(ctx)
+    ctx.alias = {}
+    # ... and the export re-imports: every selected spine contributes exactly one cell to every row (a hidden token is written as a
+    # placeholder, never dropped from the row) - the gate truth tables of C05.R3 / C06.R1 as R11
+    from .exporter_facts import RowGate, check_spine_gate, check_category_gate
+    gate_ = RowGate(ctx)
+    check_spine_gate(ctx, 'R11', gate_)
+    check_category_gate(ctx, 'R11', gate_)
     # every token reaches the text through the tokenizer of the requested encoding (no raw-text bypass): canonical order and
     # de-duplication are properties of that path
     from . import c04
